@@ -3,7 +3,7 @@
    /repo/glue/utils/array.py on every run (coq/gen/Gen_array.v). *)
 From Coq Require Import ZArith List Bool Sorting.Sorted.
 Import ListNotations.
-From GV Require Import Common.PyInt gen.Gen_array C20.Model C20.Lemmas C20.Lemmas2 C20.OdometerProof C20.Final C20.CombineProof.
+From GV Require Import Common.PyInt gen.Gen_array C20.Model C20.Lemmas C20.Lemmas2 C20.OdometerProof C20.Final C20.CombineProof C20.ViewShape.
 Open Scope Z_scope.
 
 (* no chunk larger than the requested limit; chunk shape fits the array shape (translated code) *)
@@ -119,3 +119,11 @@ Theorem combine_slices_negative : forall (s1 s2 : slice) (n : Z),
   combine_slices s1 s2 n = Err ValueError.
 Proof. exact CombineProof.combine_slices_negative. Qed.
 Print Assumptions combine_slices_negative.
+
+(* the predicted shape of a basic-indexing view equals the real one: per kept axis, the length of the list of
+   positions the view really selects (integers drop the axis, out-of-range integers are IndexError) *)
+Theorem view_shape_correct : forall (shape : list Z) (view : list ventry),
+  Forall (fun n => 0 <= n) shape ->
+  view_shape shape view = option_map (map zlen) (view_sel shape view).
+Proof. exact ViewShape.view_shape_correct. Qed.
+Print Assumptions view_shape_correct.
